@@ -259,6 +259,18 @@ func (s *Sim) Fail(class, format string, args ...interface{}) {
 	s.Logf("VIOLATION %s: %s", class, s.viol.Msg)
 }
 
+// observe runs the harness's quiescent-state observer. The observer reads the state of the code under test (through the
+// verif hooks); if that state is so broken that reading it panics (a nil shard, a nil entry stored in a table), that is
+// a finding about the code, not trouble of the machinery: it is reported as a violation with the panic text.
+func (s *Sim) observe() {
+	defer func() {
+		if r := recover(); r != nil {
+			s.Fail("state-unreadable", "reading the state of the code under test at a quiescent instant panicked: %v", r)
+		}
+	}()
+	s.OnQuiescent(s)
+}
+
 // Failed reports whether a violation was recorded.
 func (s *Sim) Failed() bool { return s.viol != nil }
 
@@ -616,7 +628,7 @@ func (s *Sim) Run(main func()) *Result {
 		}
 		s.mu.Unlock()
 		if s.OnQuiescent != nil && s.viol == nil {
-			s.OnQuiescent(s)
+			s.observe()
 		}
 		if s.viol != nil {
 			break
